@@ -164,6 +164,31 @@ func genDecCases(o hx.Opts, r *hx.Rand) []DecInput {
 		DecInput{Data: []byte{0xff, 0xfe, 0x80, 0x00}, Ops: []Op{{Name: "PeekInt16"}, {Name: "Int16"}, {Name: "Int16"}, {Name: "Int16"}}},
 		DecInput{Data: []byte{0x80, 0, 0, 1, 0xff, 0xff, 0xff, 0xff}, Ops: []Op{{Name: "Int32"}, {Name: "Uint32"}, {Name: "Byte"}}},
 	)
+	if o.Tier != "quick" {
+		// exhaustive small domain: every operation sequence of length <= 2 over the 31
+		// operations {6 primitives, Copy(n), Seek(n) for n in -3..8, Data} on fixed buffers
+		// of length 0..6 (thorough: 8 buffers; search: 3)
+		var alphabet []Op
+		for _, p := range prims {
+			alphabet = append(alphabet, Op{Name: p})
+		}
+		for nn := int64(-3); nn <= 8; nn++ {
+			alphabet = append(alphabet, Op{Name: "Copy", N: nn}, Op{Name: "Seek", N: nn})
+		}
+		alphabet = append(alphabet, Op{Name: "Data"})
+		bufs := [][]byte{{}, {0x80}, {0x00, 0x02}, {0xff, 0xff, 0x01}, {0x00, 0x01, 0x7f, 0x80}, {1, 2, 3, 4, 5}, {0x80, 0x00, 0x00, 0x03, 9, 9}, {0x00, 0x04, 1, 2, 3, 4}}
+		if o.Tier == "search" {
+			bufs = bufs[3:6]
+		}
+		for _, b := range bufs {
+			for _, a := range alphabet {
+				ins = append(ins, DecInput{Data: b, Ops: []Op{a}})
+				for _, c := range alphabet {
+					ins = append(ins, DecInput{Data: b, Ops: []Op{a, c}})
+				}
+			}
+		}
+	}
 	n := 700
 	if o.Tier != "quick" {
 		n = 6000
